@@ -289,9 +289,10 @@ def run_model(cid, inputs):
         return []
     lines = [f"{cid} {s}" for s in inputs]
     n = len(lines)
-    if n < 2000:
+    if n < 64:
         return _run_model_chunk(lines)
-    k = min(NCPU, (n + 999) // 1000)
+    # one extracted-model process per chunk; small chunks too: some models take 0.3 s per case
+    k = min(NCPU, (n + 31) // 32)
     size = (n + k - 1) // k
     chunks = [lines[i:i + size] for i in range(0, n, size)]
     with ThreadPoolExecutor(max_workers=k) as ex:
